@@ -58,6 +58,8 @@ func checkC12(c C12Case, o *vcore.Obs) error {
 	ctx := context.Background()
 	runs, deletes := 0, 0
 	maxPerInst := map[string]int{}
+	runsSeen := map[string]int{} // successful fault-free-listing runs that listed the name so far
+	mustDeletes := 0
 
 	wellFormed := func(name string) (snapshot.NameInfo, bool) {
 		ni, err := snapshot.ParseName(name)
@@ -157,7 +159,39 @@ func checkC12(c C12Case, o *vcore.Obs) error {
 				}
 			}
 		}
+		// bounded form of "superseded snapshots are eventually removed": a snapshot that is past its keep
+		// interval and has a newer snapshot of the same instance that was already listed in at least two
+		// earlier runs is deleted by a run without storage faults - also when yet another snapshot of that
+		// instance has just arrived
+		if faultKind == "" {
+			deleted := map[string]bool{}
+			for _, op := range ops {
+				if op.Kind == "delete" && op.Applied {
+					deleted[op.Name] = true
+				}
+			}
+			for n := range listed {
+				fs, seen := firstSeen[n]
+				if !seen || !(now.Sub(fs) > time.Duration(c.MustKeep)) || deleted[n] {
+					continue
+				}
+				ni, _ := wellFormed(n)
+				for n2 := range listed {
+					ni2, _ := wellFormed(n2)
+					if ni2.InstanceID == ni.InstanceID && ni2.Timestamp.After(ni.Timestamp) && runsSeen[n2] >= 2 {
+						return fmt.Errorf("%s: %q is past its keep interval (first seen %v ago, keep %v) and superseded by %q, which the cleaner has listed in %d earlier runs, but this fault-free run did not delete it: superseded snapshots must be removed (the number of files per instance stays bounded)", step, n, now.Sub(fs), time.Duration(c.MustKeep), n2, runsSeen[n2])
+					}
+				}
+			}
+			mustDeletes++
+		}
+		for n := range runsSeen {
+			if !listed[n] {
+				delete(runsSeen, n)
+			}
+		}
 		for n := range listed {
+			runsSeen[n]++
 			if _, ok := firstSeen[n]; !ok {
 				firstSeen[n] = now
 			}
@@ -214,6 +248,21 @@ func checkC12(c C12Case, o *vcore.Obs) error {
 			if err := doRun(step, op.Fault); err != nil {
 				return err
 			}
+		case "busy":
+			// an instance that uploads between every two cleaning runs, for a while
+			inst := c12Insts[op.Inst%len(c12Insts)]
+			for k := 0; k < 3+op.Idx%4; k++ {
+				ts := now
+				if !ts.After(lastPub[inst]) {
+					ts = lastPub[inst].Add(time.Nanosecond)
+				}
+				lastPub[inst] = ts
+				b.Put(snapshot.Name(c12DB, inst, "GX", ts), []byte("x"))
+				now = now.Add(time.Duration(op.DtNs))
+				if err := doRun(fmt.Sprintf("%s run %d", step, k), ""); err != nil {
+					return err
+				}
+			}
 		}
 	}
 	// foreign files are never touched
@@ -252,6 +301,7 @@ func checkC12(c C12Case, o *vcore.Obs) error {
 	}
 	o.NonTrivial(multi >= 2 && runs >= 3 && deletes >= 1)
 	o.ClassIf(!c.Enabled, "disabled")
+	o.ClassIf(mustDeletes > 0, "must-delete-clause-evaluated")
 	o.ClassIf(nForeign > 0, "foreign-files-present")
 	return nil
 }
@@ -278,8 +328,12 @@ func genC12(t *rapid.T) C12Case {
 		"db__a__2026__GX.pb.gz", "db__dir/a__20260101-000000-000000000__GX.pb.gz", "db__a__b.pb.gz", "readme.md", "db",
 		"db__a__20260101-000000-00000000__GX.pb.gz"}
 	for i := 0; i < n; i++ {
-		op := C12Op{Kind: rapid.SampledFrom([]string{"publish", "publish", "publish", "advance", "advance", "run", "run", "run", "merge", "merge", "commit", "foreign", "extdel"}).Draw(t, "kind")}
+		op := C12Op{Kind: rapid.SampledFrom([]string{"publish", "publish", "publish", "advance", "advance", "run", "run", "run", "merge", "merge", "commit", "foreign", "extdel", "busy"}).Draw(t, "kind")}
 		switch op.Kind {
+		case "busy":
+			op.Inst = rapid.IntRange(0, 3).Draw(t, "inst")
+			op.Idx = rapid.IntRange(0, 3).Draw(t, "busy_runs")
+			op.DtNs = dts()
 		case "publish", "merge":
 			op.Inst = rapid.IntRange(0, 3).Draw(t, "inst")
 			if op.Kind == "merge" {
@@ -301,7 +355,7 @@ func genC12(t *rapid.T) C12Case {
 
 func TestC12Cleaner(t *testing.T) {
 	vcore.Run(t, vcore.Config{Property: "C12",
-		Rule: "rapid state machine over a bucket and one cleaner.Worker: publish (per-instance increasing timestamps), foreign files (other databases with a shared name prefix, unparsable names, other extensions), external deletions, merges recorded in the syncer's own long-lived map (at / 1 ns before / after the newest snapshot) and separate own-upload notifications that hand that same map object to the cleaner, clock advances around the configured intervals (+-1 ns, multiples), runs with failing List / failing Delete / applied-but-failed Delete; intervals from {0, 1 ns, 1 s, 10 min, 1 h, 7 d}; enabled/disabled; every Delete is checked against the model (well-formed own snapshot, first seen longer ago than the keep interval, newest only when stale and merged-and-republished), then two fault-free runs leave <= 1 file per instance; " +
+		Rule: "rapid state machine over a bucket and one cleaner.Worker: publish (per-instance increasing timestamps), foreign files (other databases with a shared name prefix, unparsable names, other extensions), external deletions, merges recorded in the syncer's own long-lived map (at / 1 ns before / after the newest snapshot) and separate own-upload notifications that hand that same map object to the cleaner, clock advances around the configured intervals (+-1 ns, multiples), runs with failing List / failing Delete / applied-but-failed Delete; intervals from {0, 1 ns, 1 s, 10 min, 1 h, 7 d}; enabled/disabled; every Delete is checked against the model (well-formed own snapshot, first seen longer ago than the keep interval, newest only when stale and merged-and-republished); every run without storage faults must delete each snapshot that is past its keep interval and superseded by one the cleaner has already listed in two earlier runs (also while the instance keeps uploading between every two runs: 'busy' phases); then two fault-free runs leave <= 1 file per instance; " +
 			"non-trivial = >=2 instances with >=2 snapshots, >=3 runs, >=1 delete"},
 		genC12, checkC12)
 }
